@@ -493,6 +493,12 @@ KNOWN_TERMINATING = {('FatalException', 'exit'): 'the barrier\'s last resort', (
 def r6_terminators(ctx, prog):
     r = ctx.rule('C17.R6', 'inventory of process-terminating constructs in the library', floor=2, engine='E6')
     for f in sorted(prog.functions.values(), key=lambda f: (f['file'], f['line'])):
+        # throws that a handler of an enclosing try in the same function catches (catch (...) or catch (std::exception&): every exception type of the
+        # standard library and of Botan derives from std::exception) never leave the function
+        caught = set()
+        for t in walk(f['body']):
+            if t.get('k') == 'Try' and any(h.get('type') == '...' or 'std::exception' in (h.get('type') or '') for h in t.get('handlers', [])):
+                caught |= {id(x) for x in walk(t['body']) if x.get('k') == 'Throw'}
         for n in walk(f['body']):
             what = None
             if n.get('k') == 'Call' and (n.get('callee') or '').split('::')[-1] in TERMINATORS and not n.get('own'):
@@ -501,7 +507,9 @@ def r6_terminators(ctx, prog):
                 what = 'throw'
             if what:
                 site = '%s in %s' % (what, f['qname'])
-                if (f['qname'], what) in KNOWN_TERMINATING:
+                if what == 'throw' and id(n) in caught:
+                    r.ok(f['qname'], site, 'caught by a handler of the enclosing try in the same function', file=f['file'], line=n['l'])
+                elif (f['qname'], what) in KNOWN_TERMINATING:
                     r.excepted(f['qname'], site, KNOWN_TERMINATING[(f['qname'], what)], file=f['file'], line=n['l'])
                 else:
                     r.violation(f['qname'], site, 'a new process-terminating construct (%s) in library code: the host application dies instead of getting a PKCS#11 return code' % what, file=f['file'], line=n['l'])
